@@ -92,9 +92,14 @@ class ModbusDevice:
         if fn == 6:
             if self.is_refused(rq['reg'], 1):
                 return bytes([0x86, self.refuse_code])
-            self.rf.set(rq['reg'], rq['value'])
+            stored = rq['value']
+            if getattr(self, 'stores_instead', None) is not None:
+                # an inverter that does not take the value as sent (clamps it to its own limits) and says so: the
+                # acknowledgement echoes what it stored
+                stored = self.stores_instead(rq['reg'], rq['value']) & 0xFFFF
+            self.rf.set(rq['reg'], stored)
             self.writes.append((6, rq['reg'], bytes(rq['data'])))
-            return bytes([6]) + struct.pack('>HH', rq['reg'], rq['value'])
+            return bytes([6]) + struct.pack('>HH', rq['reg'], stored)
         if fn == 16:
             if self.is_refused(rq['reg'], rq['count']):
                 return bytes([0x90, self.refuse_code])
